@@ -321,9 +321,22 @@ func runC09(r *Report) {
 		}
 	}
 
+	// the key constructor of the waiting-tunnel family: makeKey on the reference tree; discovered as
+	// the function that builds the key RegisterWaitingTunnel writes (it may have become a plain function)
+	ctorName := "makeKey"
+	var ctorFn *ssa.Function
+	if regf != nil {
+		for _, c := range Calls(regf, false, "Set") {
+			if c.Common().IsInvoke() {
+				if kc, _ := CallOfValue(c.Common().Args[0]); kc != nil && CalleeOf(kc).Fn != nil {
+					ctorName, ctorFn = CalleeOf(kc).Name, CalleeOf(kc).Fn
+				}
+			}
+		}
+	}
 	// ---- R-C09-3 shapes -------------------------------------------------------------
 	if look != nil {
-		checkShapes(r, "R-C09-3", look, "makeKey", storedShapes(r.P.FuncsIn(tunPkg), "makeKey"), "tunnel_waiting")
+		checkShapes(r, "R-C09-3", look, ctorName, storedShapes(r.P.FuncsIn(tunPkg), ctorName), "tunnel_waiting")
 	}
 	if ga := r.need("R-C09-3", tunPkg, "RoutingTable.GetNodeAddress"); ga != nil {
 		checkShapes(r, "R-C09-3", ga, "", map[string]types.Type{}, "node_addr")
@@ -343,8 +356,8 @@ func runC09(r *Report) {
 				continue
 			}
 			kc, _ := CallOfValue(c.Common().Args[0])
-			good := kc != nil && CalleeOf(kc).Is("RoutingTable.makeKey")
-			det := "key built by makeKey(tunnel id)"
+			good := kc != nil && (CalleeOf(kc).Is("RoutingTable.makeKey") || (ctorFn != nil && CalleeOf(kc).Fn == ctorFn))
+			det := "key built by " + ctorName + "(tunnel id)"
 			if good {
 				o := originSummary(Arg(kc, 0))
 				good = strings.Contains(o, "tunnelID") || strings.Contains(o, "TunnelID")
@@ -355,7 +368,14 @@ func runC09(r *Report) {
 			r.Ob("R-C09-4", CallPos(c), good, det, p.name, "key-ctor:"+p.op)
 		}
 	}
-	if mk := r.need("R-C09-4", tunPkg, "RoutingTable.makeKey"); mk != nil {
+	mkFn := r.P.Fn(tunPkg, "RoutingTable.makeKey")
+	if mkFn == nil {
+		mkFn = ctorFn
+	}
+	if mkFn == nil {
+		r.need("R-C09-4", tunPkg, "RoutingTable.makeKey")
+	}
+	if mk := mkFn; mk != nil {
 		prefix := ""
 		Instrs(mk, func(in ssa.Instruction) {
 			if bo, ok := in.(*ssa.BinOp); ok {
